@@ -80,6 +80,9 @@ class Ctx:
         os.makedirs(self.work, exist_ok=True)
         self.replays = os.path.join(VERIF, "replays", pid)
         os.makedirs(self.replays, exist_ok=True)
+        for f in os.listdir(self.replays):   # replay files of an earlier run of this tier are stale
+            if f.startswith(tier + "_"):
+                os.remove(os.path.join(self.replays, f))
         self.cov = {"evaluations": 0, "distinct_nontrivial": 0, "rule": "", "samples": [],
                     "states": 0, "transitions": 0, "traces_validated_against_impl": 0}
         self.assumptions = []
